@@ -408,8 +408,20 @@ def cli_cases(draw):
     return dict(opts=o, particles=parts, prng=draw(st.integers(1, 2**31 - 1)))
 
 
+# ------------------------------------------------------------------ coverage-guided (libFuzzer, fuzz/fuzz_maps.cpp, oracle "ingrid")
+from vlib import fuzzrun  # noqa: E402
+
+MAPS_CORPUS = [bytes(range(200)), bytes([0] * 64), bytes([255, 3, 128, 64] * 64), bytes([17, 200, 90] * 100) + bytes([1, 9, 2, 3, 1, 0])]
+run_fuzzingrid = fuzzrun.make_runner("c15", "VERIF_FUZZMAPS", MAPS_CORPUS, max_len=4096, env_extra={"VERIF_MAPS_ORACLE": "ingrid"})
+
+def finalize(cov, agg, tier):
+    fuzzrun.finalize(cov, agg, "fuzzingrid")
+
+
 def subs(tier):
-    return [Sub("blob", blob_cases(), run_blob, quick=6000, thorough=60000),
+    return [Sub("fuzzingrid", st.just({}), run_fuzzingrid, quick=1, thorough=1, needs=("fuzzmaps",),
+                enum=lambda t: fuzzrun.campaigns(t, 12000, 1500000), max_wall={"quick": 400, "thorough": 3000}),
+            Sub("blob", blob_cases(), run_blob, quick=6000, thorough=60000),
             Sub("ingrid", ingrid_cases(), run_ingrid, quick=2400, thorough=20000),
             Sub("ensemble", ensemble_cases(), run_ensemble, quick=48, thorough=200, shrink_budget=12),
             Sub("cli", cli_cases(), run_cli, quick=256, thorough=600, needs=("san", "h5x", "shim"), shrink_budget=20)]
